@@ -236,14 +236,22 @@ impl SomeExpressionEvaluator {
   ///
   pub fn evaluate(&mut self, scope: &Scope, evaluator: &Evaluator) -> Value {
     let mut result = false;
+    let mut all_boolean = true;
     self.feel_iterator.run(|ctx| {
       scope.push(ctx.clone());
       if let Value::Boolean(value) = evaluator(scope) {
         result = result || value;
+      } else {
+        all_boolean = false;
       }
       scope.pop();
     });
-    Value::Boolean(result)
+    // three-valued disjunction: true when any result is true, otherwise null when any result is not a boolean
+    if result || all_boolean {
+      Value::Boolean(result)
+    } else {
+      Value::Null(None)
+    }
   }
 }
 
@@ -270,14 +278,22 @@ impl EveryExpressionEvaluator {
   ///
   pub fn evaluate(&mut self, scope: &Scope, evaluator: &Evaluator) -> Value {
     let mut result = true;
+    let mut all_boolean = true;
     self.feel_iterator.run(|ctx| {
       scope.push(ctx.clone());
       if let Value::Boolean(value) = evaluator(scope) {
         result = result && value;
+      } else {
+        all_boolean = false;
       }
       scope.pop();
     });
-    Value::Boolean(result)
+    // three-valued conjunction: false when any result is false, otherwise null when any result is not a boolean
+    if !result || all_boolean {
+      Value::Boolean(result)
+    } else {
+      Value::Null(None)
+    }
   }
 }
 
